@@ -323,13 +323,51 @@ func (d *Decoder) readObject(typ reflect.Type, cls ClassDef) (interface{}, error
 	return vv, nil
 }
 
+// skipClassDefs reads the class definitions that precede a value (value ::= class-def value)
+// and returns the tag of the value itself
+func (d *Decoder) skipClassDefs(tag byte) (byte, error) {
+	for tag == _objectDefTag {
+		clsDef, err := d.readClassDef()
+		if err != nil {
+			return tag, err
+		}
+		clsD, _ := clsDef.(ClassDef)
+		d.clsDefList = append(d.clsDefList, clsD)
+		if tag, err = d.readTag(); err != nil {
+			if err == io.EOF {
+				err = io.ErrUnexpectedEOF
+			}
+			return tag, err
+		}
+	}
+	return tag, nil
+}
+
 func (d *Decoder) readField(fldName string, fldValue reflect.Value) error {
 	sourceValue := fldValue
 	typ := UnpackPtrType(fldValue.Type())
 	fldValue = UnpackPtrValue(fldValue)
+	flag := _tagRead
+	switch typ.Kind() {
+	case reflect.Struct, reflect.Map:
+		// readStruct and readMap accept leading class definitions themselves
+	default:
+		// class definitions may stand in front of the value of any field
+		tag, err := d.readTag()
+		if err == nil {
+			tag, err = d.skipClassDefs(tag)
+		}
+		if err != nil {
+			if err == io.EOF {
+				err = io.ErrUnexpectedEOF
+			}
+			return err
+		}
+		flag = int32(tag)
+	}
 	switch typ.Kind() {
 	case reflect.String:
-		str, err := d.readString(_tagRead)
+		str, err := d.readString(flag)
 		if err != nil {
 			return err
 		}
@@ -337,39 +375,39 @@ func (d *Decoder) readField(fldName string, fldValue reflect.Value) error {
 			fldValue.SetString(str)
 		}
 	case reflect.Int32, reflect.Int, reflect.Int16, reflect.Int8:
-		i, err := d.readInt(_tagRead)
+		i, err := d.readInt(flag)
 		if err != nil {
 			return err
 		}
 		v := int64(i)
 		fldValue.SetInt(v)
 	case reflect.Uint8, reflect.Uint16:
-		i, err := d.readInt(_tagRead)
+		i, err := d.readInt(flag)
 		if err != nil {
 			return err
 		}
 		v := uint64(i)
 		fldValue.SetUint(v)
 	case reflect.Int64:
-		i, err := d.readLong(_tagRead)
+		i, err := d.readLong(flag)
 		if err != nil {
 			return err
 		}
 		fldValue.SetInt(i)
 	case reflect.Uint64, reflect.Uint, reflect.Uint32:
-		i, err := d.readLong(_tagRead)
+		i, err := d.readLong(flag)
 		if err != nil {
 			return err
 		}
 		fldValue.SetUint(uint64(i))
 	case reflect.Bool:
-		b, err := d.readBoolean(_tagRead)
+		b, err := d.readBoolean(flag)
 		if err != nil {
 			return err
 		}
 		fldValue.SetBool(b)
 	case reflect.Float32, reflect.Float64:
-		f, err := d.readDouble(_tagRead)
+		f, err := d.readDouble(flag)
 		if err != nil {
 			return err
 		}
@@ -383,7 +421,7 @@ func (d *Decoder) readField(fldName string, fldValue reflect.Value) error {
 	case reflect.Map:
 		return d.readMap(sourceValue)
 	case reflect.Slice, reflect.Array:
-		m, err := d.ReadList(_tagRead)
+		m, err := d.ReadList(flag)
 		if err != nil {
 			if err == io.EOF {
 				break // ignore nil slice
